@@ -53,7 +53,7 @@ Definition check_imat (al : alg) (d : nat) (sd : side) (t : tol)
   cmp_res (cmp_mat t) (alg_imat al d sd) o.
 
 Definition check_superpose (a b : zvec) (t : tol) (o : obs (seq dyad)) : bool :=
-  cmp_res (cmp_vec t) (Ok (nowarn (vadd a b))) o.
+  cmp_res (cmp_vec t) (rmap (@nowarn _) (alg_superpose a b)) o.
 
 (* ---- special elements (C08) ---------------------------------------------- *)
 Definition check_element (al : alg) (el : element) (d : nat) (sd : side) (t : tol)
